@@ -358,6 +358,24 @@ impl HelperDef for Counter {
     }
 }
 
+/// a writing helper (implements only `call`): writes the text of its first parameter
+struct Wr;
+impl HelperDef for Wr {
+    fn call<'reg: 'rc, 'rc>(
+        &self,
+        h: &Helper<'rc>,
+        _: &'reg Handlebars<'reg>,
+        _: &'rc Context,
+        _: &mut RenderContext<'reg, 'rc>,
+        out: &mut dyn Output,
+    ) -> HelperResult {
+        use handlebars::JsonRender;
+        let s = h.param(0).map(|p| p.value().render()).unwrap_or_default();
+        out.write(&s)?;
+        Ok(())
+    }
+}
+
 struct VRet;
 impl HelperDef for VRet {
     fn call_inner<'reg: 'rc, 'rc>(
@@ -426,6 +444,7 @@ fn mk_registry(cfg: &Value) -> Handlebars<'static> {
                 "evalp" => r.register_helper(name, Box::new(EvalP)),
                 "rcstate" => r.register_helper(name, Box::new(RcState)),
                 "vret" => r.register_helper(name, Box::new(VRet)),
+                "wr" => r.register_helper(name, Box::new(Wr)),
                 "counter" => r.register_helper(name, Box::new(Counter)),
                 "macro" => {
                     let sig_name = h["sig"]["name"].as_str().unwrap();
